@@ -51,6 +51,7 @@ fn handler(op: &str) -> Option<Handler> {
         "FRT64" => Some(ops_float::frt64_handler),
         "F16EBLK" => Some(ops_float::f16eblk_handler),
         "F16EORA" => Some(ops_float::f16eora_handler),
+        "SERD" => Some(ops_serde::serd_handler),
         "SER" => Some(ops_serde::ser_handler),
         "DE" => Some(ops_serde::de_handler),
         "X18" => Some(ops_serde::x18_handler),
